@@ -191,6 +191,8 @@ class Gen:
                 kw = rnd.choice(["media", "supports"])
                 prel = rnd.choice(["screen and (min-width: 600px)", "print", "(prefers-color-scheme: dark)"]) if kw == "media" \
                     else rnd.choice(["(display: grid)", "not (display: grid)", "(color: red) and (display: flex)"])
+                if rnd.random() < 0.2:
+                    kw = rnd.choice([kw.upper(), kw.capitalize()])       # at-keywords are case-insensitive
                 out.append({"t": "at", "kw": kw, "prelude": prel, "kids": self.block(m, depth + 1)})
                 k += m
             else:
